@@ -81,7 +81,10 @@ static void case_perfpow(ByteSource& in, CaseInfo& ci) {
   else if (k == 1) { U = Int((long long)in.srange(-70000, 70000)); }
   else if (k == 2) { // p^2 * q^3 near-misses, and true powers of composite exponents
     Int p = Int::from_u64(in.range(2, 1000)), q = Int::from_u64(in.range(2, 1000)), t = Int::from_u64(in.flag() ? 1 : in.range(2, 60));
-    static const unsigned ex[] = {1, 2, 3, 4, 5, 6, 6, 9, 10, 10, 12, 14, 15}; U = ref::pow(p, ex[in.range(0, 12)]) * ref::pow(q, ex[in.range(0, 12)]) * ref::pow(t, ex[in.range(0, 12)]); }
+    static const unsigned ex[] = {1, 2, 3, 4, 5, 6, 6, 9, 10, 10, 12, 14, 15}; U = ref::pow(p, ex[in.range(0, 12)]) * ref::pow(q, ex[in.range(0, 12)]) * ref::pow(t, ex[in.range(0, 12)]);
+    if (in.chance(110)) {   // smooth numbers: 1..3 small primes with multiplicities g*m sharing a common factor g (powers of two, odd, mixed): the decision then rests on the gcd of the multiplicities and, for negative u, on its odd part
+      static const unsigned sp[] = {2, 3, 5, 7, 11, 13, 17, 1009, 1013}; static const unsigned gs[] = {1, 2, 3, 4, 4, 5, 6, 8, 8, 9, 12, 16}; unsigned g = gs[in.range(0, 11)], np = (unsigned)in.range(1, 3); U = Int(1);
+      for (unsigned i = 0; i < np; i++) { unsigned m = (unsigned)in.range(1, 7); U = U * ref::pow(Int::from_u64(sp[in.range(0, 8)]), g * m); if (U.bits() > 900) break; } ci.label("perfpow:smooth_common_multiplicity"); } }
   else U = gen_int(in, cap, false);
   if (in.chance(90)) U = -U;
   bool e = ref_perfect_power(U);
@@ -107,6 +110,6 @@ static void check(ByteSource& in, CaseInfo& ci) { switch (in.pick({5, 5, 3})) { 
 namespace eng {
 PropDef g_prop = {"C09",
   "Cases: u = k^n + delta (delta in {0,+-1,+-2,random}; k with long runs of ones, 2^j, 2^j-1, small k; n = 2, 3..7, 8..70, up to beyond the bit length of u, and now and then up to the largest unsigned long) or random u; mpz_sqrt / mpz_sqrtrem (outputs aliasing the operand) / mpn_sqrtrem (r2p separate, == sp, NULL; odd and even limb counts) / mpz_perfect_square_p (also negative) / mpn_perfect_square_p; mpz_root / mpz_nthroot / mpz_rootrem for n>=1 and negative u with odd n; mpz_perfect_power_p on powers, near-misses, p^i*q^j, all |u| <= 70000, negative values. Oracle: refint integer roots (Newton, verified by s^2<=u<(s+1)^2 in the self-test), remainder u - root^n, exactness flag <=> remainder 0, perfect power by root extraction over all prime exponents. Non-trivial: u >= 2 limbs or n beyond the bit length. Distinct = hash of all decoded choices.",
-  check, nullptr, {"exact_power", "power_minus_1", "power_plus_1", "n_gt_bits", "huge_root_index", "negative_odd_root", "odd_limb_count", "sqrtrem:r2p==sp", "sqrtrem:r2p==NULL", "perfpow:true", "perfpow:negative_true", "ge_rootrem_threshold"}, nullptr, sweep_count, sweep_item,
+  check, nullptr, {"exact_power", "power_minus_1", "power_plus_1", "n_gt_bits", "huge_root_index", "negative_odd_root", "odd_limb_count", "sqrtrem:r2p==sp", "sqrtrem:r2p==NULL", "perfpow:true", "perfpow:smooth_common_multiplicity", "perfpow:negative_true", "ge_rootrem_threshold"}, nullptr, sweep_count, sweep_item,
   "every u in [0,2^16): mpz_sqrt, mpz_sqrtrem, mpn_sqrtrem, mpz/mpn_perfect_square_p, mpz_perfect_power_p of u and -u, mpz_root/rootrem/nthroot for n = 1..18 (and of -u for odd n)"};
 }
